@@ -150,6 +150,9 @@ class WaitForConditionOperationExecutor(OperationExecutor[T]):
             Suspends if condition not met
             Raises error if check function fails
         """
+        # an orphaned map/parallel branch must not run the user function of an existing operation
+        self.state.raise_if_orphaned(self.operation_identifier.operation_id)
+
         # Determine current state from checkpoint
         if checkpointed_result.is_started_or_ready() and checkpointed_result.result:
             try:
